@@ -433,6 +433,13 @@ func validateNonEmptyWithAllowNil(v interface{}, _ string, allowNil bool) error 
 	}
 
 	val := reflect.ValueOf(v)
+	if val.Kind() == reflect.String {
+		// a named string type
+		if val.Len() == 0 {
+			return ErrStringEmpty
+		}
+		return nil
+	}
 	if val.Kind() == reflect.Array || val.Kind() == reflect.Slice {
 		// only a slice can be nil (IsNil panics on an array)
 		if val.Kind() == reflect.Slice && val.IsNil() {
